@@ -348,6 +348,9 @@ pub fn c18(tier: Tier) -> PropSpec {
             "nogoods mention only variables below the store size (as every caller does)",
         ],
         exhaustive: false,
-        parts: vec![Part::new("history", tier.pick(300000, 3000000), move || ng_case(nmax), c18_check)],
+        parts: vec![
+            Part::new("history", tier.pick(300000, 3000000), move || ng_case(nmax), c18_check),
+            Box::new(Logged(Part::new("history-with-logging", tier.pick(5000, 50000), || ng_case(4), c18_check))),
+        ],
     }
 }
